@@ -67,9 +67,12 @@ func TestC17(t *testing.T) {
 			}
 		}
 	}
+	gate := newReplayGate(r, "C17", w.Root, w.Dir, false, 5, 1)
+	defer gate.Stop()
 	run := func(desc string, reqs []Req) {
 		m := newModel(w.Root, false)
 		res := runSession(t, SrvOpts{Root: w.Root}, m, reqs, Delivery{})
+		gate.maybe(newModel(w.Root, false), reqs, res, desc, nil)
 		r.Transition(int64(len(res.Steps)))
 		r.Eval(1)
 		key := desc
